@@ -72,3 +72,6 @@ def declare(reg):
         )
     reg.properties.setdefault("C17", {}).setdefault("bounded", []).append(
         {"name": "namespace-invariants-e2e", "module": "harness.namespace", "func": "Namespace"})
+    b17 = reg.properties.setdefault("C17", {}).setdefault("bounded", [])
+    b17.append({"name": "rename-moves-subtree-content", "module": "harness.namespace", "func": "RenameSubtree"})
+    b17.append({"name": "list-wildcards-vs-rfc-matcher", "module": "harness.namespace", "func": "ListPatterns"})
